@@ -149,22 +149,33 @@ Theorem C19_disjoint_positions_carve : forall t P,
 Proof. exact carve_all. Qed.
 Print Assumptions C19_disjoint_positions_carve.
 
-(** ** the range theorem about the diff itself (positional mode)
+(** ** the range theorem about the diff itself (ordered mode, both alignments)
 
     [diff] is the model of DeepDiff's ordered comparison (Diff/DiffModel.v, tied to
     the code by C03/C04's correspondence and by C19's own on the distance);
     [deep_distance_of_diff] feeds the delta view of its levels to rough_distance.
-    No validity hypothesis on the delta is left: only the type-change guard. *)
+    No validity hypothesis on the delta is left: only the type-change guard, plus,
+    in default alignment, that the difflib opcodes tile both lists in ascending order. *)
 
 (* the values reported by the diff are disjoint parts of the inputs *)
 Theorem C19_diff_reports_disjoint_parts :
   forall hatom udiff ops skip excl c,
-    zip c = true -> ignore_private c = true ->
+    zip c = true \/ ops_tiling ops -> ignore_private c = true ->
     forall t1 t2 p1 p2, wf t1 = true -> wf t2 = true ->
       w1 (fst (diff hatom udiff ops skip excl c t1 t2 p1 p2)) <= count t1 /\
       w2 (fst (diff hatom udiff ops skip excl c t1 t2 p1 p2)) <= count t2.
 Proof. exact diff_weights. Qed.
 Print Assumptions C19_diff_reports_disjoint_parts.
+
+Theorem C19_deep_distance_range_ordered :
+  forall hatom udiff ops skip excl c incl cutoff t1 t2 n m,
+    zip c = true \/ ops_tiling ops ->
+    ignore_private c = true -> wf t1 = true -> wf t2 = true ->
+    tcs_ok incl (fst (diff hatom udiff ops skip excl c t1 t2 [] [])) = true ->
+    deep_distance_of_diff hatom udiff ops skip excl c incl cutoff t1 t2 = RFrac n m ->
+    0 < n /\ n <= m.
+Proof. exact deep_distance_ordered_range. Qed.
+Print Assumptions C19_deep_distance_range_ordered.
 
 Theorem C19_deep_distance_range_positional :
   forall hatom udiff ops skip excl c incl cutoff t1 t2 n m,
